@@ -23,12 +23,12 @@ REACH = ["rate", "_compute", "i_map", "od_reduce", "predict_win", "predict_draw"
 
 def floors(tier):
     q = tier == "quick"
-    return {"rate/total": 8000 if q else 200000, "predict_win/total": 8000 if q else 200000,
-            "predict_draw/total": 8000 if q else 200000, "predict_rank/total": 8000 if q else 200000}
+    return {"rate/total": 8000 if q else 1600000, "predict_win/total": 8000 if q else 1600000,
+            "predict_draw/total": 8000 if q else 1600000, "predict_rank/total": 8000 if q else 1600000}
 
 
 def generate(ctx):
-    n = ctx.budget(14000, 300000)
+    n = ctx.budget(14000, 2400000)
     for _ in range(n):
         cfg = gen.gen_cfg(ctx.rng, kappas=(1e-12, 1e-9, 1e-6, 1e-4, 1e-4, 1e-3, 1e-2, 1e-2))
         regime = ctx.rng.choice(["corners", "corners", "mismatch", "wide", "tiny_sigma", "huge_sigma", "typical",
